@@ -939,3 +939,13 @@ m('c16-no-integer-trailing-zeros-from-scale', ['C16'], 'format_ascii_digits_no_i
 m('c03-hash-trim-guarded-by-limb-mod', ['C03'], 'limb-modulus', [
   ('src/lib.rs', "        let zero = self.int_val.is_zero();\n        if scale > 0 && !zero {", "        let zero = self.int_val.is_zero();\n        let ends_in_zero = self.int_val.iter_u64_digits().next().map_or(false, |lo| lo % 10 == 0);\n        if scale > 0 && !zero && ends_in_zero {")],
   'trailing-zero trimming skipped when the low 64-bit word is not a multiple of 10: 1 and 1.000...0 (21 zeros) hash differently')
+# ---- C12 operand exactness, C07 round once, C16 sticky before rounding
+m('c12-inverse-operand-clipped', ['C12'], 'operand-reaches-iteration-unrounded', [
+  ('src/arithmetic/inverse.rs', "    let s = BigDecimal::new(BigInt::from_biguint(Sign::Plus, n.clone()), scale);", "    let s = BigDecimal::new(BigInt::from_biguint(Sign::Plus, n.clone()), scale).with_prec(max_precision + 2);")],
+  'operand rounded to p+2 digits before the Newton iteration: exact reciprocals of long operands go wrong under directed modes')
+m('c07-precision-round-truncates-first', ['C07'], 'with_precision_round:rounds-once', [
+  ('src/lib.rs', "                        .expect(\"precision overflow\");\n\n        self.with_scale_round(new_scale, round)\n    }\n\n    #[cfg(not(rustc_1_46))]", "                        .expect(\"precision overflow\");\n\n        if self.scale.saturating_sub(new_scale) > 8 {\n            return self.with_scale(new_scale + 8).with_scale_round(new_scale, round);\n        }\n        self.with_scale_round(new_scale, round)\n    }\n\n    #[cfg(not(rustc_1_46))]")],
+  'long tails are truncated to 8 guard digits before rounding: 12.5000000001 rounds as an exact tie')
+m('c16-exp-format-truncates-before-rounding', ['C16'], 'format_exponential_bigendian_ascii_digits:point-and-exponent', [
+  ('src/impl_fmt.rs', "            let delta_exp = round_ascii_digits(&mut digits, target_scale, rounder);", "            let dropped = digits.len() - (total_prec + 1);\n            digits.truncate(total_prec + 1);\n            let delta_exp = round_ascii_digits(&mut digits, target_scale, rounder) + dropped;")],
+  '{:.Ne}: digits beyond the first dropped one are cut off before rounding: 1.2501 prints as 1.2e+0')
